@@ -1,4 +1,4 @@
 From Coq Require Extraction ExtrOcamlBasic.
 From Wz Require Import lib.Bytes lib.Utf8 lib.ExtractBase C03.Gen C03.Trie C03.Model C04.Model C12.Model.
 Extraction Language OCaml.
-Extraction "C12/model_extracted.ml" force_types router_match rule_trace router_match_rt.
+Extraction "C12/model_extracted.ml" force_types router_match rule_trace router_match_rt router_match_bo.
